@@ -69,6 +69,8 @@ pub struct BatchResult {
     pub by_class: BTreeMap<String, u64>,
     pub viol: BTreeMap<String, Finding>,
     pub diag: BTreeMap<String, Finding>,
+    /// Entry points that returned a value for an unfaulted seed.
+    pub base_ok: BTreeSet<usize>,
     /// Wall time of the batch in the worker (diagnostic only).
     pub micros: u64,
 }
@@ -87,6 +89,7 @@ impl BatchResult {
             "viol": f(&self.viol),
             "diag": f(&self.diag),
             "us": self.micros,
+            "bok": self.base_ok.iter().collect::<Vec<_>>(),
         })
     }
     pub fn from_json(v: &Value) -> Option<BatchResult> {
@@ -101,6 +104,7 @@ impl BatchResult {
         for (k, s) in v.get("ec")?.as_object()? {
             r.err_classes.insert(k.parse().ok()?, s.as_array()?.iter().filter_map(|x| x.as_str().map(String::from)).collect());
         }
+        r.base_ok = v.get("bok")?.as_array()?.iter().filter_map(|x| x.as_u64().map(|x| x as usize)).collect();
         for (k, n) in v.get("bc")?.as_object()? {
             r.by_class.insert(k.clone(), n.as_u64()?);
         }
@@ -242,6 +246,11 @@ impl World {
                 let slots = plan.slots() as u64;
                 journal(u64::MAX - 2);
                 let base: Vec<Res> = seed.entries.iter().map(|&id| (self.cat[id].call)(&seed.bytes, false).res).collect();
+                for (k, b) in base.iter().enumerate() {
+                    if matches!(b, Res::Ok(_)) {
+                        r.base_ok.insert(seed.entries[k]);
+                    }
+                }
                 let mut cur_oi = usize::MAX;
                 let mut fl: Vec<Option<Fault>> = vec![];
                 let mut cur_f = u64::MAX;
